@@ -57,6 +57,21 @@ def program(op, a):
     if op == "serializeUnsealed":
         v, p = a
         return "pub fn f(t: &UnsealedToken<%s, %s, Raw, Raw>) -> String { serde_json::to_string(t).unwrap() }" % (TY[v], PURP[p])
+    if op == "fieldKey":
+        v, k = a
+        return "pub fn f(k: &Key<%s, %s>) -> usize { let _x = &k.0; 0 }" % (TY[v], KIND[k])
+    if op == "ctorKey":
+        (v,) = a
+        return "pub fn f(k: Key<%s, PkeSecret>) -> Key<%s, Secret> { Key(k.0) }" % (TY[v], TY[v])
+    if op == "keyInto":
+        v, k, n = a
+        return "pub fn f(k: Key<%s, %s>) -> [u8; %s] { k.into() }" % (TY[v], KIND[k], n)
+    if op == "sealedMethod":
+        v, name = a
+        return "pub fn f(t: &SealedToken<%s, Local, Raw, Raw>) { let _ = t.%s(); }" % (TY[v], name)
+    if op == "sealedMethodPub":
+        v, name = a
+        return "pub fn f(t: &SealedToken<%s, Public, Raw, Raw>) { let _ = t.%s(); }" % (TY[v], name)
     if op == "fieldFooter":
         (v,) = a
         return "pub fn f(t: &SealedToken<%s, Local, Raw, Vec<u8>>) -> &Vec<u8> { &t.footer }" % TY[v]
@@ -104,6 +119,19 @@ def catalogue(thorough=False):
                 ("displayUnsealed", (v, "local")), ("displayUnsealed", (v, "public")),
                 ("serializeUnsealed", (v, "local")), ("serializeUnsealed", (v, "public")),
                 ("fieldFooter", (v,)), ("fieldPayload", (v,)), ("unverifiedFooter", (v,))]
+    # oracle-only probes (no counterpart in the Lean typing model; tied to the theorems over the extracted impl / API tables):
+    # private representation of keys, conversions out of secret keys, accessor names on not-yet-verified tokens
+    for v in BACKENDS:
+        for k in ("local", "secret", "pkesecret", "public"):
+            cat.append(("fieldKey", (v, k)))
+        cat.append(("ctorKey", (v,)))
+        for k, n in (("local", "32"), ("secret", "64"), ("secret", "48"), ("pkesecret", "32")):
+            cat.append(("keyInto", (v, k, n)))
+        for name in ("footer", "get_footer", "footer_ref", "as_footer", "into_footer", "raw_footer", "encoded_footer", "footer_bytes",
+                     "claims", "payload", "message", "body", "get_claims", "unverified_claims", "unverified_payload", "into_inner", "inner"):
+            cat.append(("sealedMethod", (v, name)))
+            if name in ("footer", "claims", "payload"):
+                cat.append(("sealedMethodPub", (v, name)))
     # dedupe, keep order
     seen, out = set(), []
     for e in cat:
@@ -112,8 +140,11 @@ def catalogue(thorough=False):
     return out
 
 
+ORACLE_ONLY = {"fieldKey", "ctorKey", "keyInto", "sealedMethod", "sealedMethodPub"}
+
+
 def op_line(op, a):
-    return "ty %s %s" % (op, " ".join(a))
+    return "%s %s %s" % ("o.ty" if op in ORACLE_ONLY else "ty", op, " ".join(a))
 
 
 def run(entries, env=None):
